@@ -346,7 +346,7 @@ pub fn fit_case(c: &Case) {
     let libw: Vec<Vec<f64>> = (0..rows).map(|r| (0..p).map(|j| lr.coefficients().get(r, j)).chain(std::iter::once(lr.intercept().get(r, 0))).collect()).collect();
     if libw.iter().flatten().any(|v| !v.is_finite()) {
         mc::violation(
-            format!("logreg.fit:non-finite-parameters:{}:{}:{}", if k == 2 { "binary" } else { "multiclass" }, xclass, aclass),
+            format!("logreg.fit:non-finite-parameters:{}:{}", if k == 2 { "binary" } else { "multiclass" }, xclass),
             format!("{}: returned parameters {:?}", header(), libw),
         );
         mc::describe(|| json!({"op": "LogisticRegression.fit", "x": x, "y": y, "alpha": c.alpha, "parameters": libw}));
@@ -419,7 +419,7 @@ pub fn fit_case(c: &Case) {
         }
         if !(f_final <= f0 * (1.0 + MONO_RTOL)) {
             viols.push((
-                format!("logreg.fit:objective-above-start:{}:{}:{}{}", model, xclass, aclass, if dominated { ":scores-dominated-by-a-negative-one" } else { "" }),
+                format!("logreg.fit:objective-above-start:{}:{}{}", model, xclass, if dominated { ":scores-dominated-by-a-negative-one" } else { "" }),
                 format!("{}: objective {:e} at the returned parameters {:?} exceeds {:e} at the all-zero start", header(), f_final, libw, f0),
             ));
         }
